@@ -306,3 +306,10 @@ def barrier(detector):
     b = BARRIER
     if b is not None:
         b.wait()
+
+
+def fault_if(detector, key="temperature", bad=None, token="isolation-fault"):
+    """Raise when a detector field has a given value (makes exactly one run of a sweep fail)."""
+    val = detector.environment.temperature if key == "temperature" else detector.characteristics.quantum_efficiency
+    if bad is not None and float(val) == float(bad):
+        raise ProbeError(token)
